@@ -277,10 +277,14 @@ def get_ast_term(t):
     from data import interval
     from data import string
 
+    def is_nat_numeral(t):
+        """Whether t is printed as a numeral (0, 1, or of_nat applied to a binary number >= 2)."""
+        return t.is_zero() or t.is_one() or \
+            (t.is_comb('of_nat', 1) and t.arg.is_binary() and t.arg.dest_binary() >= 2)
+
     def get_priority_pair(t):
         """Obtain the binding priority of the top-most operation of t."""
-        if (t.is_number() and isinstance(t.dest_number(), int) and t.dest_number() >= 0) or \
-           list.is_literal_list(t):
+        if is_nat_numeral(t) or list.is_literal_list(t):
             return 100, ATOM  # Nat atom case
         elif t.is_comb():
             op_data = operator.get_info_for_fun(t.head)
@@ -310,8 +314,7 @@ def get_ast_term(t):
         """
         # Some special cases:
         # Natural numbers:
-        if t.is_zero() or t.is_one() or \
-           (t.is_comb('of_nat', 1) and t.arg.is_binary() and t.arg.dest_binary() >= 2):
+        if is_nat_numeral(t):
             # First find the number
             n = t.dest_number()
             res = Number(n, t.get_type())
